@@ -146,46 +146,47 @@ def close(src):
             pass
 
 
-def observe(xmlschema, schema, make, route):
+def observe(xmlschema, schema, make, route, opts=None):
     """Outcome of one route on one fresh source: dict(valid, first, errors, data)."""
     src = make()
+    opts = opts or {}
     try:
         if route == 'is_valid':
-            return {'valid': schema.is_valid(src)}
+            return {'valid': schema.is_valid(src, **opts)}
         if route == 'iter_errors':
-            errs = [err_key(e, None) for e in schema.iter_errors(src)]
+            errs = [err_key(e, None) for e in schema.iter_errors(src, **opts)]
             return {'valid': not errs, 'errors': errs, 'first': errs[0] if errs else None}
         if route == 'validate':
             try:
-                schema.validate(src)
+                schema.validate(src, **opts)
                 return {'valid': True}
             except xmlschema.XMLSchemaValidationError as e:
                 return {'valid': False, 'first': err_key(e, None)}
         if route == 'decode_strict':
             try:
-                return {'valid': True, 'data': norm(schema.decode(src))}
+                return {'valid': True, 'data': norm(schema.decode(src, **opts))}
             except xmlschema.XMLSchemaValidationError as e:
                 return {'valid': False, 'first': err_key(e, None)}
         if route == 'decode_lax':
-            data, errs = schema.decode(src, validation='lax')
+            data, errs = schema.decode(src, validation='lax', **opts)
             errs = [err_key(e, None) for e in errs]
             return {'valid': not errs, 'errors': errs, 'first': errs[0] if errs else None, 'data_lax': norm(data)}
         if route == 'decode_skip':
-            return {'data_skip': norm(schema.decode(src, validation='skip'))}
+            return {'data_skip': norm(schema.decode(src, validation='skip', **opts))}
         if route == 'pkg_is_valid':
-            return {'valid': xmlschema.is_valid(src, schema, use_location_hints=False)}
+            return {'valid': xmlschema.is_valid(src, schema, use_location_hints=False, **opts)}
         if route == 'pkg_iter_errors':
-            errs = [err_key(e, None) for e in xmlschema.iter_errors(src, schema, use_location_hints=False)]
+            errs = [err_key(e, None) for e in xmlschema.iter_errors(src, schema, use_location_hints=False, **opts)]
             return {'valid': not errs, 'errors': errs, 'first': errs[0] if errs else None}
         if route == 'pkg_validate':
             try:
-                xmlschema.validate(src, schema, use_location_hints=False)
+                xmlschema.validate(src, schema, use_location_hints=False, **opts)
                 return {'valid': True}
             except xmlschema.XMLSchemaValidationError as e:
                 return {'valid': False, 'first': err_key(e, None)}
         if route == 'pkg_to_dict':
             try:
-                return {'valid': True, 'data': norm(xmlschema.to_dict(src, schema, use_location_hints=False))}
+                return {'valid': True, 'data': norm(xmlschema.to_dict(src, schema, use_location_hints=False, **opts))}
             except xmlschema.XMLSchemaValidationError as e:
                 return {'valid': False, 'first': err_key(e, None)}
         if route == 'xml_document':
@@ -228,19 +229,24 @@ ROUTES = ('is_valid', 'iter_errors', 'validate', 'decode_strict', 'decode_lax', 
           'pkg_iter_errors', 'pkg_validate', 'pkg_to_dict', 'xml_document', 'xml_document_lax')
 
 
-def compare_document(res, xmlschema, schema, text, label, case, has_qname_values, scratch, rng, tier, tag):
+def compare_document(res, xmlschema, schema, text, label, case, has_qname_values, scratch, rng, tier, tag, opts=None):
     from lxml import etree as lxml_etree
     import xml.etree.ElementTree as ET
     import re
     nsmap = {p: u for p, u in re.findall(r'xmlns:?([\w.-]*)="([^"]*)"', text.split('>', 2)[1] if text.startswith('<?xml') else text.split('>', 1)[0])}
     srcs = sources(text, scratch, has_qname_values, lxml_etree, ET, xmlschema)
-    base = observe(xmlschema, schema, srcs['str'], 'iter_errors')
+    base = observe(xmlschema, schema, srcs['str'], 'iter_errors', opts)
     ref_valid, ref_errors, ref_first = base['valid'], base['errors'], base['first']
     ref_data = None
     if ref_valid:
-        ref_data = observe(xmlschema, schema, srcs['str'], 'decode_strict').get('data')
+        ref_data = observe(xmlschema, schema, srcs['str'], 'decode_strict', opts).get('data')
     kinds = list(srcs)
     combos = [(r, k) for r in ROUTES for k in kinds if not (r.startswith('xml_document') and k == 'XMLResource')]
+    if opts:
+        # the option is passed to every entry point that takes it (XmlDocument validates at construction, without it)
+        combos = [(r, k) for r, k in combos if not r.startswith('xml_document')]
+        res.count('documents_with_options:' + ','.join(f'{k}={v}' for k, v in sorted(opts.items())))
+        case = dict(case, options=opts)
     if tier == 'quick':
         # every route on str, every source kind on two seeded routes, plus a seeded sample of the rest
         keep = {(r, 'str') for r in ROUTES} | {(r, k) for k in kinds for r in rng.sample(ROUTES, 2)}
@@ -250,7 +256,7 @@ def compare_document(res, xmlschema, schema, text, label, case, has_qname_values
         res.count('route:' + route)
         res.count('source:' + kind)
         try:
-            out = observe(xmlschema, schema, srcs[kind], route)
+            out = observe(xmlschema, schema, srcs[kind], route, opts)
         except xmlschema.XMLSchemaException as e:
             res.violation(f'route-raised:{route}:{type(e).__name__}', dict(case, route=route, source=kind),
                           f'{label}: {route} on {kind} raised {e!r}'[:400])
@@ -289,13 +295,14 @@ def compare_document(res, xmlschema, schema, text, label, case, has_qname_values
 def run_gen(spec, res):
     xmlschema = env.activate_repo()
     schemas = {}
-    for fam in D.FAMILIES:
+    families = dict(D.FAMILIES, fx=D.EXTRA_FAMILIES['fx'])
+    for fam in families:
         for v, cls in (('1.0', xmlschema.XMLSchema10), ('1.1', xmlschema.XMLSchema11)):
-            schemas[fam, v] = cls(D.FAMILIES[fam])
+            schemas[fam, v] = cls(D.family_xsd(fam, v))
     rng = env.rng_for(PROPERTY, spec['tier'], spec['seed'], spec['gshard'])
     scratch = tempfile.mkdtemp(prefix='c04-')
     for d in range(spec['docs']):
-        fam = rng.choice(('shop', 'shop', 'tree', 'ctx'))
+        fam = rng.choice(('shop', 'shop', 'tree', 'ctx', 'fx'))
         doc = D.GENERATORS[fam](rng)
         version = rng.choice(('1.0', '1.1'))
         schema = schemas[fam, version]
@@ -313,9 +320,13 @@ def run_gen(spec, res):
             variants.append((r[0], idk))
         for tree, fault in variants:
             text = D.render_doc(tree, fam, prefixes=prefixes)
-            has_q = any(n.meta.get('xsi_type') for _, n in tree.walk())
+            has_q = any(n.meta.get('xsi_type') for _, n in tree.walk()) or 'xsi:type' in text
             case = {'family': fam, 'version': version, 'doc': text, 'fault': fault}
             compare_document(res, xmlschema, schema, text, f'{fam}/{fault}', case, has_q, scratch, rng, spec['tier'], (fam, fault))
+            if fam == 'fx' or rng.random() < 0.25:
+                # the same comparison with a non-default option given to every entry point
+                compare_document(res, xmlschema, schema, text, f'{fam}/{fault}/use_defaults=False', case, has_q, scratch, rng,
+                                 spec['tier'], (fam, fault, 'nodefaults'), {'use_defaults': False})
             if len(res.samples) < 2:
                 res.sample({'family': fam, 'fault': fault, 'version': version, 'doc_chars': len(text)})
 
@@ -416,9 +427,9 @@ def replay(case):
         run_corpus({'tier': 'thorough', 'seed': 0}, res)
     else:
         cls = xmlschema.XMLSchema10 if case['version'] == '1.0' else xmlschema.XMLSchema11
-        schema = cls(D.FAMILIES[case['family']])
+        schema = cls(D.family_xsd(case['family'], case['version']))
         compare_document(res, xmlschema, schema, case['doc'], 'replay', case, 'xsi:type' in case['doc'],
-                         tempfile.mkdtemp(prefix='c04-'), random.Random(0), 'thorough', ('replay',))
+                         tempfile.mkdtemp(prefix='c04-'), random.Random(0), 'thorough', ('replay',), case.get('options'))
     for v in res.violations:
         print(v['mechanism'], v['detail'][:400])
     return bool(res.violations)
